@@ -460,13 +460,22 @@ def thorough_extras(verif, repo, prop, seed, use_cache, ev, r1):
                 st.append({'change': os.path.basename(d), 'what': meta.get('summary') or meta.get('what'),
                            'result': 'caught' if r['failed'] else 'MISSED', 'failed_obligations': r['failed'][:8]})
             except Undecided as u:
-                st.append({'change': os.path.basename(d), 'result': 'undecided: ' + str(u)})
+                res = 'undecided: ' + str(u)
+                try:
+                    from . import witness as wmod
+                    if prop in wmod.SEARCHABLE:
+                        w = wmod.search(verif, scratch, prop, {}, 'quick')
+                        if w.get('found'):
+                            res = 'caught by the bounded stand-in (proof undecided: %s): %s' % (str(u)[:120], w.get('observed'))
+                except Exception:
+                    pass
+                st.append({'change': os.path.basename(d), 'result': res})
         finally:
             shutil.rmtree(scratch, ignore_errors=True)
     cov['seeded_change_selftest'] = st
     for x in st:
-        if x['result'] == 'MISSED':
-            eprint('SELFTEST-MISS property=%s change=%s: the check does not notice this seeded change' % (prop, x['change']))
+        if x['result'] == 'MISSED' or x['result'].startswith('undecided'):
+            eprint('SELFTEST-MISS property=%s change=%s: the check does not report this seeded change (%s)' % (prop, x['change'], x['result'][:80]))
     # (c) bounded supplement on the real crate
     try:
         from . import witness as wmod
